@@ -64,7 +64,26 @@ def run(spec, ids):
     meta.setdefault('check_results', {}).update(results)
     meta['caught_by'] = sorted({k.split(':')[0] for k, v in meta['check_results'].items() if v['exit'] == 1 and any(l.startswith('VIOLATION') for l in v['lines'])})
     json.dump(meta, open(f'{dst}/meta.json', 'w'), indent=1)
-if sys.argv[1] == 'confirm':
+def matrix():
+    """Run every stored seeded change against its own property's quick check; write seeded/MATRIX.md."""
+    import glob
+    rows = []
+    for d in sorted(glob.glob('/verif/seeded/*/*/meta.json')):
+        spec = '/'.join(d.split('/')[-3:-1])
+        run(spec, [])
+        m = json.load(open(d))
+        r = m['check_results'].get(spec.split('/')[0] + ':quick', {})
+        kinds = 'concrete input' if any(l.startswith('VIOLATION') and 'no-failing-input-found' not in l for l in r.get('lines', [])) else \
+            ('no-failing-input-found' if any(l.startswith('VIOLATION') for l in r.get('lines', [])) else 'MISSED')
+        rows.append((spec, ', '.join(m.get('files', [])), ', '.join(m.get('caught_by', [])) or '-', kinds, r.get('wall')))
+    with open('/verif/seeded/MATRIX.md', 'w') as f:
+        f.write('| seeded change | files | caught by (quick) | how | wall s |\n|---|---|---|---|---|\n')
+        for r in rows:
+            f.write('| ' + ' | '.join(str(x) for x in r) + ' |\n')
+    print(open('/verif/seeded/MATRIX.md').read())
+if sys.argv[1] == 'matrix':
+    matrix()
+elif sys.argv[1] == 'confirm':
     confirm(sys.argv[2], sys.argv[3], sys.argv[4] if len(sys.argv) > 4 else 'm1')
 else:
     run(sys.argv[2], sys.argv[3:])
